@@ -129,7 +129,9 @@ class Schedules(core.Layer):
         self.probe = json.loads(line[len('POOLPROBE '):]) if line else dict(ok=False, error=(out.stdout + out.stderr)[-600:])
         # 2. select worlds
         for w in candidate_worlds(self.n_queries):
-            info = prescan(w)
+            st, info = core.run_isolated(prescan, w)     # never run COMA tasks in this process: workers inherit its state
+            if st != 'ok':
+                raise RuntimeError('prescan failed: %s' % info)
             if info and info['M'] >= 3 and info['second_pass_records'] >= 2 and info['two_fragment_queries']:
                 base, calls, err = execute(w, None, None)
                 if err:
